@@ -35,7 +35,7 @@ fn err_class(e: &str) -> &'static str {
     "err-notfound"
   } else if e.contains("255 copies") {
     "err-full"
-  } else if e.contains("must be the same") || e.contains("same MOC type") {
+  } else if e.contains("must be the same") || e.contains("same MOC type") || e.contains("is not a ") {
     "err-kind"
   } else if e.contains("oisoned") {
     "err-poisoned"
@@ -148,7 +148,14 @@ pub fn run(sink: &mut Sink, rng: &mut Rng, thorough: bool) {
       }
     } else if choice < (if phase_drain { 62 } else { 46 }) {
       let i = pick_idx(rng, &known);
+      if i % 5 == 3 {
+        // typed drop, of the kind of the MOC or of another one (no RNG draw): a mismatch is an error WITHOUT effect
+        let k = (i / 5) % 4;
+        sink.count("call:typed-drop");
+        (format!("store dropk {} {}", k, i), guarded(AssertUnwindSafe(|| unit_ans(match k { 0 => store.drop_smoc(i).map(|_| ()), 1 => store.drop_tmoc(i).map(|_| ()), 2 => store.drop_fmoc(i).map(|_| ()), _ => store.drop_stmoc(i).map(|_| ()) }))))
+      } else {
       (format!("store drop {}", i), guarded(AssertUnwindSafe(|| unit_ans(store.drop(i)))))
+      }
     } else if choice < 60 {
       let i = pick_idx(rng, &known);
       (format!("store get {}", i), guarded(AssertUnwindSafe(|| get_ans(store, i))))
